@@ -101,6 +101,7 @@ def c15_rf19(run):
     rf_proto.rf102(run)
     rf_tables.rf134(run)
     rf_tables.rf145(run)
+    rf_tables.rf154(run)
 
 
 def c15_rf16h(run):
@@ -193,6 +194,7 @@ def c20_rf21(run):
     run.min_instances('RF95', 6)
     rf_vocab.rf103(run)
     rf_mir2c.rf139(run)
+    rf_mir2c.rf156(run)
     rf_vocab.rf118(run, True)
     rf_proto.rf117(run)
     rf_mir2c.rf112(run)
@@ -256,6 +258,7 @@ def c17_rf2(run):
     rf_alloc.rf122(run)
     rf_alloc.rf130(run)
     rf_alloc.rf137(run)
+    rf_alloc.rf152(run)
     run.min_instances('RF78b', 20)
 
 
@@ -371,6 +374,7 @@ def c04_rf18(run):
     rf_inline.rf113(run)
     rf_fold.rf48b(run)
     rf_fold.rf142(run)
+    rf_inline.rf153(run)
     rf_fold.rf100(run)
     rf_flow.rf71(run, units=('mir',))
     run.min_instances('RF71', 3)
@@ -516,6 +520,7 @@ def c05_rf10(run):
     rf_abi.rf126(run)
     rf_abi.rf133(run)
     rf_abi.rf144(run)
+    rf_fold.rf23(run)
 
 
 def c06_rf10(run):
@@ -535,6 +540,8 @@ def c06_rf10(run):
     rf_abi.rf127(run)
     rf_abi.rf133(run)
     rf_iface.rf147(run)
+    rf_fold.rf23(run)
+    rf_abi.rf155(run)
 
 
 def c02_rf9(run):
